@@ -30,8 +30,10 @@ def rand_schedule(rng, ns, n):
             st.append(["send", s, "QUIT"])
         elif r < 0.8:
             st.append(["vanish", s])
-        elif r < 0.95:
+        elif r < 0.9:
             st += [["connect", s], ["send", s, "USER u2"]]
+        elif r < 0.96:   # USER again inside the session (same or another account): listener and port stay the session's
+            st.append(["send", s, "USER " + rng.choice(["u2", "u2", "anonymous", "nobody"])])
         else:
             st.append(["send", s, "PWD"])
     r = rng.random()
